@@ -43,11 +43,26 @@ def frame_of(exc):
     return last or 'outside-supp'
 
 
+MARK = '__supp_mark__'
+
+
+def mark(text, pos):
+    """the cursor-marked text, built independently of supp: lines are what CPython counts as lines (\\n, \\r\\n, \\r)"""
+    import re
+    parts = re.split('(\r\n|\r|\n)', text)
+    lines = parts[0::2]
+    seps = parts[1::2] + ['']
+    ln, col = pos
+    while ln > len(lines):
+        seps[-1] = seps[-1] or '\n'
+        lines.append('')
+        seps.append('')
+    lines[ln - 1] = lines[ln - 1][:col] + MARK + lines[ln - 1][col:]
+    return ''.join(l + s for l, s in zip(lines, seps))
+
+
 def marked_parses(text, fn, pos):
-    try:
-        src = Source(text, fn, pos).source
-    except Exception:
-        return True
+    src = mark(text, pos)
     try:
         ast.parse(src, fn)
         return True
@@ -188,6 +203,9 @@ def typing_states(text):
 DEGENERATE = [
     ('empty', ''), ('newline', '\n'), ('spaces', '   '), ('spaces-nl', '   \n\n'), ('comment', '# x'), ('comment-nl', '# x\n'),
     ('crlf', 'a = 1\r\nb = a\r\nb\r\n'), ('cr', 'a = 1\rb = a\r'), ('tab-indent', 'if 1:\n\ta = 1\n\ta\n'), ('mixed-indent', 'if 1:\n\ta = 1\n        a\n'),
+    ('formfeed-in-string', 'a = "x\x0cy"\nb = a\nb\n'), ('formfeed-after-code', 'a = 1\x0c\nb = a\nb\n'), ('formfeed-lines', 'a = 1\n\x0c\nb = a\n\x0c\nb\n'),
+    ('fs-in-string', 'a = "x\x1cy\x1dz\x1ew"\nb = a\nb\n'), ('nel-ls-ps-in-comment', 'a = 1  # \x85 \u2028 \u2029\nb = a\nb\n'), ('ls-in-string', 'a = "\u2028"; b = a\nb\n'),
+    ('vt-in-string', 'a = "x\x0by"\nb = a\nb\n'),
     ('form-feed', 'a = 1\n\x0c\nb = a\n'), ('surrogate', 'a = "\udcff"\na\n'), ('nul', 'a = 1\x00\na\n'), ('bom', '\ufeffa = 1\na\n'),
     ('non-ascii-ident', 'caf\u00e9 = 1\ncaf\u00e9\n'), ('non-ascii-str', 'a = "\u00e9\u00e9"; a\na\n'), ('wide-char', 'a = "\U0001F600"; b = a\nb\n'),
     ('unterminated-string', 'a = "abc\n'), ('unterminated-triple', 'a = """abc\n'), ('unclosed-paren', 'f(a,\n'), ('only-dot', '.'), ('only-at', '@'),
